@@ -10,7 +10,7 @@
    MAX, ZERO, ONE..TEN, NEG_ONE..NEG_TEN, and the aliases U128..U8192 / I128..I8192 have exactly the
    named widths."
 
-  This is a cross-cutting corollary of C01–C03, C05–C11: every specification theorem proved there has
+  This is a cross-cutting corollary of C01–C03, C05–C15, C18, C19: every specification theorem proved there has
   a right-hand side that mentions only the total width `W = w·n` (through `M w n = 2^(w·n)`) and the
   VALUES of the operands, never the digits.
 
@@ -36,17 +36,33 @@
            `ext_cmp_print`, `ext_u_parse`, `ext_i_parse`; summary `op_extend_commutes`.
   §4  (iii) constants: `bits_bytes`, `u_min_max_zero`, `u_one_to_ten`, `i_min_max_zero`,
            `i_one_to_ten`, `consts_real`, `small_width_counterexamples`, `byName_spec`  (Model/Consts.lean)
-  §5  (iv) alias table: `aliases_widths`, `aliases_names`, `aliases_complete`, `aliases_spec`
+  §5  (iv) alias table: `aliases_widths`, `aliases_names`, `aliases_complete`, `aliases_spec`, and
+           `aliases_generated` (the model's table = the table re-read from `src/types.rs` on every run)
+  §6  (i, continued) the operations outside C01–C11: `indep_fmt` (C12, all eight traits), `indep_slices`,
+           `indep_to_bytes`, `indep_from_bytes`, `indep_to_be` (C15), `indep_to_prim` (`as` C09, `TryFrom` C13,
+           `ToPrimitive`/`AsPrimitive` C19), `indep_btry_from` (C13), `indep_from_prim` (C19), `indep_to_float`,
+           `indep_from_float` (C14, C19), `indep_u_gcd_lcm`, `indep_i_gcd_lcm`, `indep_u_integer_div`,
+           `indep_i_integer_div`, `indep_u_roots`, `indep_i_roots`, `indep_mul_add_abs_sub_even` (C18);
+           C03 completed: `indep_u_next_multiple_of`, `indep_i_div_round_all` (all operands, `MIN / -1` and
+           unrepresentable multiples included); (ii) `ext_i_wrapping_rem` (`MIN % -1` included)
 
   Honest limits of the statements (all inherited from the cited properties):
   * error KIND of `from_str_radix` on over-long malformed strings is not claimed equal (C10 leaves it
     open: `Expect.anyErr`); everything else about parsing is (`ParseRel`).
-  * `BInt::div_floor/div_ceil/checked_next_multiple_of` at `MIN / -1`, and the non-`checked`
-    `next_multiple_of` when the multiple is not representable, are not covered (no C03 theorem).
+  * (closed in §6: `BInt::div_floor/div_ceil/(checked_)next_multiple_of` at `MIN / -1` and the non-`checked`
+    `next_multiple_of` with an unrepresentable multiple are covered by `indep_i_div_round_all` /
+    `indep_u_next_multiple_of`.)
   * `op_extend_commutes` for signed `div`/`rem` excludes `MIN / -1` of the narrow type — there the
-    narrow type overflows and the wide one does not (example after `ext_i_div`).
+    narrow type overflows and the wide one does not (example after `ext_i_div`); the value-returning
+    remainder forms are covered there too (`ext_i_wrapping_rem`).
+  * `lcm`, signed `gcd`, `mul_add`, `abs_sub` are claimed where C18 determines them (exact result
+    representable); `FromPrimitive::from_f32/f64` where C19 does (not: unsigned target, float in `(-1, 0)`).
+  * `Hash` is not claimed: a `BUint` hashes its digit array, so equal values held in different digit types
+    hash differently by design (and `Hash` is not a value-level result).  Formatting needs `W < 2^64`.
 -/
 import Bnum.Lemmas.Indep
+import Bnum.Lemmas.C16Extra
+import Bnum.Generated.Aliases
 import Bnum.Props.C01
 import Bnum.Props.C02
 import Bnum.Props.C03
@@ -57,6 +73,12 @@ import Bnum.Props.C08
 import Bnum.Props.C09
 import Bnum.Props.C10
 import Bnum.Props.C11
+import Bnum.Props.C12
+import Bnum.Props.C13
+import Bnum.Props.C14
+import Bnum.Props.C15
+import Bnum.Props.C18
+import Bnum.Props.C19
 
 namespace Bnum.C16
 open Bnum Bnum.Indep
@@ -1952,5 +1974,512 @@ theorem aliases_complete :
     digits of the name, divide by 64) agrees with the table -/
 theorem aliases_spec :
     ∀ e ∈ Consts.aliases, Spec.Consts.aliasAdvertised e.1 = some (e.2.1, e.2.2.2, e.2.2.1) := by decide
+
+
+/-! ## §6 (i, continued) the operations outside C01–C11: formatting, bytes, conversions, floats, num_traits
+
+  "every operation gives the same result whichever digit type is used" also covers the formatting traits
+  (C12), the byte-order helpers and byte-slice constructors (C15), the conversions to and from primitives and
+  between bnum types (`as`: C09, `TryFrom`/`BTryFrom`: C13, `FromPrimitive`/`ToPrimitive`/`AsPrimitive`: C19),
+  the float casts (C14) and the `num_integer` / `num_traits` methods (C18).  As in §2 each statement is a
+  corollary of the cited property's specification theorem, whose right-hand side mentions only the width
+  and the VALUE.  Text, byte strings, primitives and floats are compared with `=`; bnum results with
+  `EqU` / `EqS` / `EqV s` (value under signedness `s`). -/
+
+section more
+variable {w₁ n₁ w₂ n₂ : Nat} {a₁ a₂ b₁ b₂ : List Nat}
+
+/-- C12: all eight formatting traits (`Display`, `Debug`, `Binary`, `Octal`, `LowerHex`, `UpperHex`,
+    `LowerExp`, `UpperExp`), every formatter state: the very same text — although `LowerHex` / `Binary` /
+    `Octal` are per-digit code (`digit.rs HEX_PADDING`, zero padding of the lower digits) -/
+theorem indep_fmt (c : Cfgs w₁ n₁ w₂ n₂) (h8₁ : 8 ≤ w₁) (h4₁ : 4 ∣ w₁) (h8₂ : 8 ≤ w₂) (h4₂ : 4 ∣ w₂)
+    (hW : w₁ * n₁ < 2 ^ 64) (t : Spec.Fmt.Trait) (fl : Fmt.Flags)
+    (hu : SameU w₁ n₁ w₂ n₂ a₁ a₂) (hs : SameS w₁ n₁ w₂ n₂ b₁ b₂) :
+    Drive.C12.runModel false t fl w₁ a₁ = Drive.C12.runModel false t fl w₂ a₂ ∧
+    Drive.C12.runModel true t fl w₁ b₁ = Drive.C12.runModel true t fl w₂ b₂ := by
+  have hW₂ : w₂ * n₂ < 2 ^ 64 := by rw [← c.bits]; exact hW
+  constructor
+  · rw [C12.fmt_unsigned t fl h8₁ h4₁ c.hn₁ hW hu.wf₁, C12.fmt_unsigned t fl h8₂ h4₂ c.hn₂ hW₂ hu.wf₂,
+      c.bits, hu.val]
+  · rw [C12.fmt_signed t fl h8₁ h4₁ c.hn₁ hW hs.wf₁, C12.fmt_signed t fl h8₂ h4₂ c.hn₂ hW₂ hs.wf₂,
+      c.bits, hs.val]
+example : (Cfgs 8 4 16 2 ∧ 8 * 4 < 2 ^ 64 ∧ SameU 8 4 16 2 [0x78, 0x06, 0x00, 0x12] [0x0678, 0x1200]) ∧
+    Drive.C12.runModel false .lowerHex {} 8 [0x78, 0x06, 0x00, 0x12] =
+      Drive.C12.runModel false .lowerHex {} 16 [0x0678, 0x1200] :=
+  ⟨⟨⟨by decide, by decide, by decide, by decide, by decide⟩, by decide, ⟨by decide, by decide, by decide⟩⟩,
+   by decide⟩
+
+/-- C15: `from_be_slice` / `from_le_slice` (any length, padding and overflow included): both `None`, or both
+    `Some` of the same value; never a panic -/
+theorem indep_slices {bw₁ sh₁ bw₂ sh₂ : Nat} (hb₁ : bw₁ = 2 ^ sh₁) (hb₂ : bw₂ = 2 ^ sh₂)
+    (c : Cfgs (8 * bw₁) n₁ (8 * bw₂) n₂) {bs : List Nat} (hb : Endian.Bytes bs) :
+    OutRel (OptRel (EqU (8 * bw₁) (8 * bw₂))) (UI.fromBeSlice bw₁ n₁ bs) (UI.fromBeSlice bw₂ n₂ bs) ∧
+    OutRel (OptRel (EqU (8 * bw₁) (8 * bw₂))) (UI.fromLeSlice bw₁ n₁ bs) (UI.fromLeSlice bw₂ n₂ bs) ∧
+    OutRel (OptRel (EqS (8 * bw₁) (8 * bw₂))) (II.fromBeSlice bw₁ n₁ bs) (II.fromBeSlice bw₂ n₂ bs) ∧
+    OutRel (OptRel (EqS (8 * bw₁) (8 * bw₂))) (II.fromLeSlice bw₁ n₁ bs) (II.fromLeSlice bw₂ n₂ bs) := by
+  rw [C15.u_fromBeSlice_closed hb₁ n₁ hb, C15.u_fromBeSlice_closed hb₂ n₂ hb,
+    C15.u_fromLeSlice_closed hb₁ n₁ hb, C15.u_fromLeSlice_closed hb₂ n₂ hb,
+    C15.i_fromBeSlice_closed hb₁ c.hn₁ hb, C15.i_fromBeSlice_closed hb₂ c.hn₂ hb,
+    C15.i_fromLeSlice_closed hb₁ c.hn₁ hb, C15.i_fromLeSlice_closed hb₂ c.hn₂ hb, c.M_eq]
+  refine ⟨?_, ?_, ?_, ?_⟩
+  · by_cases h : Spec.Endian.beValue bs < M (8 * bw₂) n₂
+    · simp only [h, if_true]; show U _ _ = U _ _; rw [Endian.U_ofNat, Endian.U_ofNat, c.M_eq]
+    · simp only [h, if_false]; trivial
+  · by_cases h : Spec.Endian.leValue bs < M (8 * bw₂) n₂
+    · simp only [h, if_true]; show U _ _ = U _ _; rw [Endian.U_ofNat, Endian.U_ofNat, c.M_eq]
+    · simp only [h, if_false]; trivial
+  · by_cases h : repS (M (8 * bw₂) n₂) (Spec.Endian.twosBE bs)
+    · simp only [h, if_true]; show S _ _ = S _ _; rw [S_ofInt h, S_ofInt (by rw [c.M_eq]; exact h)]
+    · simp only [h, if_false]; trivial
+  · by_cases h : repS (M (8 * bw₂) n₂) (Spec.Endian.twosLE bs)
+    · simp only [h, if_true]; show S _ _ = S _ _; rw [S_ofInt h, S_ofInt (by rw [c.M_eq]; exact h)]
+    · simp only [h, if_false]; trivial
+example : (1 = 2 ^ 0 ∧ 2 = 2 ^ 1 ∧ Cfgs (8 * 1) 2 (8 * 2) 1 ∧ Endian.Bytes [0xff, 0xff, 0x80, 0x01]) ∧
+    II.fromBeSlice 1 2 [0xff, 0xff, 0x80, 0x01] = .ok (some [0x01, 0x80]) ∧
+    II.fromBeSlice 2 1 [0xff, 0xff, 0x80, 0x01] = .ok (some [0x8001]) :=
+  ⟨⟨by decide, by decide, ⟨by decide, by decide, by decide, by decide, by decide⟩, by decide⟩, by decide, by decide⟩
+
+/-- C15: `to_le_bytes` / `to_be_bytes` (hence `to_ne_bytes`): the very same byte array -/
+theorem indep_to_bytes {bw₁ sh₁ bw₂ sh₂ : Nat} (hb₁ : bw₁ = 2 ^ sh₁) (hb₂ : bw₂ = 2 ^ sh₂)
+    (c : Cfgs (8 * bw₁) n₁ (8 * bw₂) n₂) (ha : SameU (8 * bw₁) n₁ (8 * bw₂) n₂ a₁ a₂) :
+    UI.toLeBytes bw₁ n₁ a₁ = UI.toLeBytes bw₂ n₂ a₂ ∧ UI.toBeBytes bw₁ n₁ a₁ = UI.toBeBytes bw₂ n₂ a₂ ∧
+    II.toLeBytes bw₁ n₁ a₁ = II.toLeBytes bw₂ n₂ a₂ ∧ II.toBeBytes bw₁ n₁ a₁ = II.toBeBytes bw₂ n₂ a₂ := by
+  obtain ⟨l1, l2, -⟩ := C15.toLeBytes_spec hb₁ ha.wf₁
+  obtain ⟨l3, l4, -⟩ := C15.toLeBytes_spec hb₂ ha.wf₂
+  obtain ⟨b1, b2, -⟩ := C15.toBeBytes_spec hb₁ ha.wf₁
+  obtain ⟨b3, b4, -⟩ := C15.toBeBytes_spec hb₂ ha.wf₂
+  rw [l1, l2, l3, l4, b1, b2, b3, b4, bytes_len c, ha.val]
+  exact ⟨rfl, rfl, rfl, rfl⟩
+example : UI.toBeBytes 1 4 [0x78, 0x56, 0x34, 0x12] = .ok [0x12, 0x34, 0x56, 0x78] ∧
+    UI.toBeBytes 2 2 [0x5678, 0x1234] = .ok [0x12, 0x34, 0x56, 0x78] := by decide
+
+/-- C15: `from_le_bytes` / `from_be_bytes` of one byte array of the common length -/
+theorem indep_from_bytes {bw₁ sh₁ bw₂ sh₂ : Nat} (hb₁ : bw₁ = 2 ^ sh₁) (hb₂ : bw₂ = 2 ^ sh₂)
+    (c : Cfgs (8 * bw₁) n₁ (8 * bw₂) n₂) {bytes : List Nat} (hb : Endian.Bytes bytes)
+    (hl : bytes.length = n₁ * bw₁) :
+    OutRel (EqU (8 * bw₁) (8 * bw₂)) (UI.fromLeBytes bw₁ n₁ bytes) (UI.fromLeBytes bw₂ n₂ bytes) ∧
+    OutRel (EqU (8 * bw₁) (8 * bw₂)) (UI.fromBeBytes bw₁ n₁ bytes) (UI.fromBeBytes bw₂ n₂ bytes) ∧
+    OutRel (EqU (8 * bw₁) (8 * bw₂)) (II.fromLeBytes bw₁ n₁ bytes) (II.fromLeBytes bw₂ n₂ bytes) ∧
+    OutRel (EqU (8 * bw₁) (8 * bw₂)) (II.fromBeBytes bw₁ n₁ bytes) (II.fromBeBytes bw₂ n₂ bytes) := by
+  obtain ⟨⟨x, e1, e2, -, e3⟩, ⟨y, f1, f2, -, f3⟩⟩ := C15.fromBytes_spec hb₁ hb hl
+  obtain ⟨⟨x', e1', e2', -, e3'⟩, ⟨y', f1', f2', -, f3'⟩⟩ :=
+    C15.fromBytes_spec hb₂ hb (by rw [hl, bytes_len c])
+  rw [e1, e2, f1, f2, e1', e2', f1', f2']
+  exact ⟨by show U _ _ = U _ _; rw [e3, e3'], by show U _ _ = U _ _; rw [f3, f3'],
+    by show U _ _ = U _ _; rw [e3, e3'], by show U _ _ = U _ _; rw [f3, f3']⟩
+example : UI.fromBeBytes 1 4 [0x12, 0x34, 0x56, 0x78] = .ok [0x78, 0x56, 0x34, 0x12] ∧
+    UI.fromBeBytes 2 2 [0x12, 0x34, 0x56, 0x78] = .ok [0x5678, 0x1234] := by decide
+
+/-- C15: `to_be` / `to_le` / `from_be` / `from_le` (`e` = the target is little-endian; `to_le`/`from_le` are
+    the `!e` instances) -/
+theorem indep_to_be {bw₁ bw₂ : Nat} (c : Cfgs (8 * bw₁) n₁ (8 * bw₂) n₂)
+    (ha : SameU (8 * bw₁) n₁ (8 * bw₂) n₂ a₁ a₂) (e : Bool) :
+    EqU (8 * bw₁) (8 * bw₂) (UI.toBe e bw₁ a₁) (UI.toBe e bw₂ a₂) ∧
+    EqU (8 * bw₁) (8 * bw₂) (UI.fromBe e bw₁ a₁) (UI.fromBe e bw₂ a₂) ∧
+    EqU (8 * bw₁) (8 * bw₂) (II.toBe e bw₁ a₁) (II.toBe e bw₂ a₂) ∧
+    EqU (8 * bw₁) (8 * bw₂) (II.fromBe e bw₁ a₁) (II.fromBe e bw₂ a₂) := by
+  obtain ⟨p1, p2, p3, p4⟩ := C15.toBe_eq e bw₁ a₁
+  obtain ⟨q1, q2, q3, q4⟩ := C15.toBe_eq e bw₂ a₂
+  rw [p1, p2, p3, p4, q1, q2, q3, q4]
+  have hs : EqU (8 * bw₁) (8 * bw₂) (Endian.swapBytes bw₁ a₁) (Endian.swapBytes bw₂ a₂) := by
+    show U _ _ = U _ _
+    rw [(C15.swapBytes_value ha.wf₁).2, (C15.swapBytes_value ha.wf₂).2, bytes_len c, ha.val]
+  cases e
+  · exact ⟨ha.val, ha.val, ha.val, ha.val⟩
+  · exact ⟨hs, hs, hs, hs⟩
+example : UI.toBe true 1 [0x78, 0x56, 0x34, 0x12] = [0x12, 0x34, 0x56, 0x78] ∧
+    UI.toBe true 2 [0x5678, 0x1234] = [0x3412, 0x7856] := by decide
+
+/-- C09 / C13 / C19, bnum → primitive: `as` (`CastFrom`, `AsPrimitive`), `TryFrom`, `ToPrimitive::to_*`
+    give the very same primitive whichever digit type holds the value -/
+theorem indep_to_prim (s : Bool) (t : PTy) (c : Cfgs w₁ n₁ w₂ n₂) (ha : SameV s w₁ n₁ w₂ n₂ a₁ a₂) :
+    castToPrim w₁ s a₁ t = castToPrim w₂ s a₂ t ∧
+    NumC.asPrim w₁ s a₁ t = NumC.asPrim w₂ s a₂ t ∧
+    (1 ≤ t.bits → (t.bits < w₁ ∨ ∃ k, t.bits = k * w₁) → (t.bits < w₂ ∨ ∃ k, t.bits = k * w₂) →
+      tryToPrim w₁ s a₁ t = tryToPrim w₂ s a₂ t ∧ NumC.toPrim w₁ s a₁ t = NumC.toPrim w₂ s a₂ t) := by
+  obtain ⟨h1, h2, hv⟩ := ha
+  refine ⟨?_, ?_, fun ht d1 d2 => ⟨?_, ?_⟩⟩
+  · rw [C09.cast_to_prim s c.one₁ c.hn₁ h1 t, C09.cast_to_prim s c.one₂ c.hn₂ h2 t, hv]
+  · rw [C19.as_spec s c.one₁ c.hn₁ h1 t, C19.as_spec s c.one₂ c.hn₂ h2 t, hv]
+  · exact convOkP_eq (C13.try_to_prim s t c.one₁ c.hn₁ ht d1 h1)
+      (by rw [hv]; exact C13.try_to_prim s t c.one₂ c.hn₂ ht d2 h2)
+  · exact convOkP_eq (C19.toPrim_spec s t c.one₁ c.hn₁ ht d1 h1)
+      (by rw [hv]; exact C19.toPrim_spec s t c.one₂ c.hn₂ ht d2 h2)
+example : SameV true 8 4 16 2 [0xfe, 0xff, 0xff, 0xff] [0xfffe, 0xffff] ∧
+    tryToPrim 8 true [0xfe, 0xff, 0xff, 0xff] ⟨16, true⟩ = .ok (some 0xfffe) ∧
+    tryToPrim 16 true [0xfffe, 0xffff] ⟨16, true⟩ = .ok (some 0xfffe) :=
+  ⟨⟨by decide, by decide, by decide⟩, by decide, by decide⟩
+
+/-- C13, bnum → bnum `BTryFrom`: the source held in either digit type, the target built from either digit
+    type of one width `v₁·m₁ = v₂·m₂`: both `Err`, or both `Ok` of the same value -/
+theorem indep_btry_from {v₁ m₁ v₂ m₂ : Nat} (s t : Bool) (c : Cfgs w₁ n₁ w₂ n₂) (d : Cfgs v₁ m₁ v₂ m₂)
+    (hd₁ : w₁ ∣ v₁ ∨ v₁ ∣ w₁) (hd₂ : w₂ ∣ v₂ ∨ v₂ ∣ w₂) (ha : SameV s w₁ n₁ w₂ n₂ a₁ a₂) :
+    OutRel (OptRel (EqV t v₁ v₂)) (btryFrom w₁ s a₁ v₁ m₁ t) (btryFrom w₂ s a₂ v₂ m₂ t) :=
+  convOk_rel d.M_eq (C13.btry_from s t c.one₁ d.one₁ c.hn₁ d.hn₁ hd₁ ha.1)
+    (C13.btry_from s t c.one₂ d.one₂ c.hn₂ d.hn₂ hd₂ ha.2.1) ha.2.2
+example : SameV true 8 4 16 2 [0xfe, 0xff, 0xff, 0xff] [0xfffe, 0xffff] ∧
+    btryFrom 8 true [0xfe, 0xff, 0xff, 0xff] 8 2 true = .ok (some [0xfe, 0xff]) ∧
+    btryFrom 16 true [0xfffe, 0xffff] 16 1 true = .ok (some [0xfffe]) ∧
+    btryFrom 16 true [0xfffe, 0xffff] 16 1 false = .ok none :=
+  ⟨⟨by decide, by decide, by decide⟩, by decide, by decide, by decide⟩
+
+/-- C19, primitive → bnum `FromPrimitive::from_*`: the same `Option` of the same value -/
+theorem indep_from_prim (s : Bool) (t : NumC.PrimT) {p : Nat} (hp : p < B t.ty.bits) (c : Cfgs w₁ n₁ w₂ n₂) :
+    OutRel (OptRel (EqV s w₁ w₂)) (NumC.fromPrim w₁ n₁ s t p) (NumC.fromPrim w₂ n₂ s t p) :=
+  convOk_rel c.M_eq (C19.fromPrim_spec s t c.one₁ c.hn₁ hp) (C19.fromPrim_spec s t c.one₂ c.hn₂ hp) rfl
+example : NumC.fromPrim 8 2 true .i16 0xfffe = .ok (some [0xfe, 0xff]) ∧
+    NumC.fromPrim 16 1 true .i16 0xfffe = .ok (some [0xfffe]) ∧ NumC.fromPrim 16 1 false .i16 0xfffe = .ok none := by decide
+
+/-- C14 / C19, bnum → float (`as f32/f64`, `ToPrimitive::to_f32/f64`, `AsPrimitive<f32/f64>`), digit-level
+    models, digit widths `2^s`: the very same float -/
+theorem indep_to_float {F : FloatFmt} (hF : F.Valid) {s₁ s₂ : Nat} (h1₁ : 1 ≤ s₁) (hs₁ : s₁ < 32)
+    (h1₂ : 1 ≤ s₂) (hs₂ : s₂ < 32) (c : Cfgs (2 ^ s₁) n₁ (2 ^ s₂) n₂) (dbg sg : Bool)
+    (hu : SameU (2 ^ s₁) n₁ (2 ^ s₂) n₂ a₁ a₂) (hi : SameS (2 ^ s₁) n₁ (2 ^ s₂) n₂ b₁ b₂)
+    {x₁ x₂ : List Nat} (hx : SameV sg (2 ^ s₁) n₁ (2 ^ s₂) n₂ x₁ x₂) :
+    FltD.floatFromBUint F dbg (2 ^ s₁) a₁ = FltD.floatFromBUint F dbg (2 ^ s₂) a₂ ∧
+    FltD.floatFromBInt F dbg (2 ^ s₁) b₁ = FltD.floatFromBInt F dbg (2 ^ s₂) b₂ ∧
+    NumCD.toFloat dbg F (2 ^ s₁) sg x₁ = NumCD.toFloat dbg F (2 ^ s₂) sg x₂ ∧
+    NumCD.asFloat dbg F (2 ^ s₁) sg x₁ = NumCD.asFloat dbg F (2 ^ s₂) sg x₂ := by
+  refine ⟨?_, ?_, ?_, ?_⟩
+  · rw [C14.floatFromUint_specD hF hs₁ dbg hu.wf₁, C14.floatFromUint_specD hF hs₂ dbg hu.wf₂, hu.val]
+  · rw [C14.floatFromInt_specD hF h1₁ hs₁ c.hn₁ dbg hi.wf₁, C14.floatFromInt_specD hF h1₂ hs₂ c.hn₂ dbg hi.wf₂,
+      hi.val]
+  · rw [C19.toFloat_digit_spec hF h1₁ hs₁ c.hn₁ dbg sg hx.1, C19.toFloat_digit_spec hF h1₂ hs₂ c.hn₂ dbg sg hx.2.1,
+      hx.2.2]
+  · rw [C19.as_float_digit_spec hF h1₁ hs₁ c.hn₁ dbg sg hx.1,
+      C19.as_float_digit_spec hF h1₂ hs₂ c.hn₂ dbg sg hx.2.1, hx.2.2]
+example : FltD.floatFromBUint fmtF32 true (2 ^ 3) [0x01, 0x00, 0x00, 0x01] = .ok 0x4b800000 ∧
+    FltD.floatFromBUint fmtF32 true (2 ^ 4) [0x0001, 0x0100] = .ok 0x4b800000 := by decide
+
+/-- C14, float → bnum (`f as BUint/BInt`): total, the same (saturating / truncating) value for every float
+    pattern; C19 `FromPrimitive::from_f32/f64` wherever C19 determines the answer (everything except an
+    unsigned target with a float in `(-1, 0)`: `Spec.NumC.fromFloat … = .any`) -/
+theorem indep_from_float {F : FloatFmt} (hF : F.Valid) (dbg : Bool) (c : Cfgs w₁ n₁ w₂ n₂) {x : Nat}
+    (hx : x < 2 ^ F.bits) :
+    OutRel (EqU w₁ w₂) (FltD.buintFromFloat F dbg w₁ n₁ x) (FltD.buintFromFloat F dbg w₂ n₂ x) ∧
+    OutRel (EqU w₁ w₂) (FltD.bintFromFloat F dbg w₁ n₁ x) (FltD.bintFromFloat F dbg w₂ n₂ x) ∧
+    ∀ s : Bool, Spec.NumC.fromFloat F.spec s (M w₁ n₁) x ≠ .any →
+      OutRel (OptRel (EqU w₁ w₂)) (NumCD.fromFloat dbg F w₁ n₁ s x) (NumCD.fromFloat dbg F w₂ n₂ s x) := by
+  refine ⟨?_, ?_, fun s hne => ?_⟩
+  · exact okUn (C14.uintFromFloat_specD hF dbg c.one₁ c.hn₁ hx) (C14.uintFromFloat_specD hF dbg c.one₂ c.hn₂ hx)
+      (by rw [c.M_eq])
+  · obtain ⟨r₁, e₁, -, u₁, -⟩ := C14.intFromFloat_specD hF dbg c.hw₁ c.hn₁ hx
+    obtain ⟨r₂, e₂, -, u₂, -⟩ := C14.intFromFloat_specD hF dbg c.hw₂ c.hn₂ hx
+    rw [e₁, e₂]; show U _ _ = U _ _; rw [u₁, u₂, c.M_eq]
+  · have h₁ := C19.fromFloat_digit_matches_spec hF c.hw₁ c.hn₁ dbg s hx
+    have h₂ := C19.fromFloat_digit_matches_spec hF c.hw₂ c.hn₂ dbg s hx
+    rw [← c.M_eq] at h₂
+    generalize Spec.NumC.fromFloat F.spec s (M w₁ n₁) x = ans at h₁ h₂ hne
+    cases ans with
+    | some pat =>
+      obtain ⟨r₁, e₁, -, u₁⟩ := h₁; obtain ⟨r₂, e₂, -, u₂⟩ := h₂
+      rw [e₁, e₂]; show U _ _ = U _ _; rw [u₁, u₂]
+    | none => rw [show NumCD.fromFloat dbg F w₁ n₁ s x = .ok none from h₁,
+        show NumCD.fromFloat dbg F w₂ n₂ s x = .ok none from h₂]; trivial
+    | any => exact absurd rfl hne
+example : FltD.bintFromFloat fmtF32 true 8 2 0xc0200000 = .ok [0xfe, 0xff] ∧
+    FltD.bintFromFloat fmtF32 true 16 1 0xc0200000 = .ok [0xfffe] := by decide
+
+open NumT in
+/-- C18 `Integer::gcd` / `lcm` of `BUint` (`lcm` whenever representable, as in C18) -/
+theorem indep_u_gcd_lcm (c : Cfgs w₁ n₁ w₂ n₂) (ha : SameU w₁ n₁ w₂ n₂ a₁ a₂)
+    (hb : SameU w₁ n₁ w₂ n₂ b₁ b₂) (dbg : Bool) :
+    OutRel (EqU w₁ w₂) (U.gcd dbg w₁ a₁ b₁) (U.gcd dbg w₂ a₂ b₂) ∧
+    (Nat.lcm (U w₁ a₁) (U w₁ b₁) < M w₁ n₁ →
+      OutRel (EqU w₁ w₂) (U.lcm dbg w₁ a₁ b₁) (U.lcm dbg w₂ a₂ b₂)) :=
+  ⟨okUn (C18.u_gcd_spec c.one₁ ha.wf₁ hb.wf₁ dbg) (C18.u_gcd_spec c.one₂ ha.wf₂ hb.wf₂ dbg)
+     (by rw [ha.val, hb.val]),
+   fun h => okUn (C18.u_lcm_spec c.one₁ c.hn₁ ha.wf₁ hb.wf₁ h dbg)
+     (C18.u_lcm_spec c.one₂ c.hn₂ ha.wf₂ hb.wf₂ (by rw [← ha.val, ← hb.val, ← c.M_eq]; exact h) dbg)
+     (by rw [ha.val, hb.val])⟩
+example : NumT.U.gcd true 8 [0x00, 0x12] [0x00, 0x18] = .ok [0x00, 0x06] ∧
+    NumT.U.gcd true 16 [0x1200] [0x1800] = .ok [0x0600] := by decide
+
+open NumT in
+/-- C18 `Integer::gcd` / `lcm` of `BInt` (whenever representable, as in C18) -/
+theorem indep_i_gcd_lcm (c : Cfgs w₁ n₁ w₂ n₂) (ha : SameS w₁ n₁ w₂ n₂ a₁ a₂)
+    (hb : SameS w₁ n₁ w₂ n₂ b₁ b₂) (dbg : Bool) :
+    (2 * Nat.gcd (S w₁ a₁).natAbs (S w₁ b₁).natAbs < M w₁ n₁ →
+      OutRel (EqS w₁ w₂) (I.gcd dbg w₁ a₁ b₁) (I.gcd dbg w₂ a₂ b₂)) ∧
+    (2 * Nat.lcm (S w₁ a₁).natAbs (S w₁ b₁).natAbs < M w₁ n₁ →
+      OutRel (EqS w₁ w₂) (I.lcm dbg w₁ a₁ b₁) (I.lcm dbg w₂ a₂ b₂)) :=
+  ⟨fun h => okS (C18.i_gcd_spec c.hw₁ c.hn₁ ha.wf₁ hb.wf₁ h dbg)
+     (C18.i_gcd_spec c.hw₂ c.hn₂ ha.wf₂ hb.wf₂ (by rw [← ha.val, ← hb.val, ← c.M_eq]; exact h) dbg)
+     (by rw [ha.val, hb.val]),
+   fun h => okS (C18.i_lcm_spec c.hw₁ c.hn₁ ha.wf₁ hb.wf₁ h dbg)
+     (C18.i_lcm_spec c.hw₂ c.hn₂ ha.wf₂ hb.wf₂ (by rw [← ha.val, ← hb.val, ← c.M_eq]; exact h) dbg)
+     (by rw [ha.val, hb.val])⟩
+example : 2 * Nat.gcd (S 8 [0xf4, 0xff]).natAbs (S 8 [18, 0]).natAbs < M 8 2 ∧
+    NumT.I.gcd true 8 [0xf4, 0xff] [18, 0] = .ok [6, 0] ∧ NumT.I.gcd true 16 [0xfff4] [18] = .ok [6] := by decide
+
+open NumT in
+/-- C18 `Integer::{div_floor, mod_floor, div_rem, div_mod_floor, is_multiple_of}` of `BUint`, all operands
+    (zero divisor: both panic) -/
+theorem indep_u_integer_div (c : Cfgs w₁ n₁ w₂ n₂) (ha : SameU w₁ n₁ w₂ n₂ a₁ a₂)
+    (hb : SameU w₁ n₁ w₂ n₂ b₁ b₂) :
+    OutRel (EqU w₁ w₂) (U.divFloor w₁ a₁ b₁) (U.divFloor w₂ a₂ b₂) ∧
+    OutRel (EqU w₁ w₂) (U.modFloor w₁ a₁ b₁) (U.modFloor w₂ a₂ b₂) ∧
+    OutRel (Pair2Rel (EqU w₁ w₂) (EqU w₁ w₂)) (U.divRem w₁ a₁ b₁) (U.divRem w₂ a₂ b₂) ∧
+    OutRel (Pair2Rel (EqU w₁ w₂) (EqU w₁ w₂)) (U.divModFloor w₁ a₁ b₁) (U.divModFloor w₂ a₂ b₂) ∧
+    U.isMultipleOf w₁ a₁ b₁ = U.isMultipleOf w₂ a₂ b₂ := by
+  by_cases h0 : U w₁ b₁ = 0
+  · have h0' : U w₂ b₂ = 0 := by rw [← hb.val]; exact h0
+    obtain ⟨p1, p2, p3, p4, p5⟩ := C18.u_div_by_zero (a := a₁) h0
+    obtain ⟨q1, q2, q3, q4, q5⟩ := C18.u_div_by_zero (a := a₂) h0'
+    rw [p1, p2, p3, p4, p5, q1, q2, q3, q4, q5]
+    exact ⟨trivial, trivial, trivial, trivial, rfl⟩
+  · have h0' : U w₂ b₂ ≠ 0 := by rw [← hb.val]; exact h0
+    obtain ⟨x1, e1, -, u1⟩ := C18.u_divFloor_spec c.one₁ c.hn₁ ha.wf₁ hb.wf₁ h0
+    obtain ⟨x2, e2, -, u2⟩ := C18.u_divFloor_spec c.one₂ c.hn₂ ha.wf₂ hb.wf₂ h0'
+    obtain ⟨y1, f1, -, v1⟩ := C18.u_modFloor_spec c.one₁ c.hn₁ ha.wf₁ hb.wf₁ h0
+    obtain ⟨y2, f2, -, v2⟩ := C18.u_modFloor_spec c.one₂ c.hn₂ ha.wf₂ hb.wf₂ h0'
+    obtain ⟨q1, r1, g1, -, -, s1, t1⟩ := C18.u_divRem_spec c.one₁ c.hn₁ ha.wf₁ hb.wf₁ h0
+    obtain ⟨q2, r2, g2, -, -, s2, t2⟩ := C18.u_divRem_spec c.one₂ c.hn₂ ha.wf₂ hb.wf₂ h0'
+    obtain ⟨q3, r3, g3, -, -, s3, t3⟩ := C18.u_divModFloor_spec c.one₁ c.hn₁ ha.wf₁ hb.wf₁ h0
+    obtain ⟨q4, r4, g4, -, -, s4, t4⟩ := C18.u_divModFloor_spec c.one₂ c.hn₂ ha.wf₂ hb.wf₂ h0'
+    rw [e1, e2, f1, f2, g1, g2, g3, g4, C18.u_isMultipleOf_spec c.one₁ c.hn₁ ha.wf₁ hb.wf₁ h0,
+      C18.u_isMultipleOf_spec c.one₂ c.hn₂ ha.wf₂ hb.wf₂ h0', ha.val, hb.val]
+    refine ⟨?_, ?_, ⟨?_, ?_⟩, ⟨?_, ?_⟩, rfl⟩ <;> show U _ _ = U _ _
+    · rw [u1, u2, ha.val, hb.val]
+    · rw [v1, v2, ha.val, hb.val]
+    · rw [s1, s2, ha.val, hb.val]
+    · rw [t1, t2, ha.val, hb.val]
+    · rw [s3, s4, ha.val, hb.val]
+    · rw [t3, t4, ha.val, hb.val]
+example : NumT.U.divRem 8 [0x78, 0x56] [0x10, 0x00] = .ok ([0x67, 0x05], [0x08, 0x00]) ∧
+    NumT.U.divRem 16 [0x5678] [0x0010] = .ok ([0x0567], [0x0008]) := by decide
+
+open NumT in
+/-- C18 `Integer::…` of `BInt`: zero divisor (all five panic in both), `MIN / -1` (`div_rem`, `div_floor`,
+    `mod_floor` panic in both) and the regular case (floored / truncated pairs, divisibility) -/
+theorem indep_i_integer_div (c : Cfgs w₁ n₁ w₂ n₂) (ha : SameS w₁ n₁ w₂ n₂ a₁ a₂)
+    (hb : SameS w₁ n₁ w₂ n₂ b₁ b₂) (dbg : Bool) :
+    OutRel (EqS w₁ w₂) (I.divFloor dbg w₁ a₁ b₁) (I.divFloor dbg w₂ a₂ b₂) ∧
+    OutRel (EqS w₁ w₂) (I.modFloor dbg w₁ a₁ b₁) (I.modFloor dbg w₂ a₂ b₂) ∧
+    OutRel (Pair2Rel (EqS w₁ w₂) (EqS w₁ w₂)) (I.divRem dbg w₁ a₁ b₁) (I.divRem dbg w₂ a₂ b₂) ∧
+    (¬ (S w₁ a₁ = -(H w₁ n₁ : Int) ∧ S w₁ b₁ = -1) →
+      OutRel (Pair2Rel (EqS w₁ w₂) (EqS w₁ w₂)) (I.divModFloor dbg w₁ a₁ b₁) (I.divModFloor dbg w₂ a₂ b₂) ∧
+      I.isMultipleOf dbg w₁ a₁ b₁ = I.isMultipleOf dbg w₂ a₂ b₂) := by
+  have hMh : ((M w₁ n₁ / 2 : Nat) : Int) = ((M w₂ n₂ / 2 : Nat) : Int) := by rw [c.M_eq]
+  rw [← M_half_eq_H c.one₁ c.hn₁]
+  by_cases h0 : S w₁ b₁ = 0
+  · have h0' : S w₂ b₂ = 0 := by rw [← hb.val]; exact h0
+    obtain ⟨p1, p2, p3, p4, p5⟩ := C18.i_div_by_zero (a := a₁) hb.wf₁ h0 dbg
+    obtain ⟨q1, q2, q3, q4, q5⟩ := C18.i_div_by_zero (a := a₂) hb.wf₂ h0' dbg
+    rw [p1, p2, p3, p4, p5, q1, q2, q3, q4, q5]
+    exact ⟨trivial, trivial, trivial, fun _ => ⟨trivial, rfl⟩⟩
+  · have h0' : S w₂ b₂ ≠ 0 := by rw [← hb.val]; exact h0
+    by_cases hov : S w₁ a₁ = -((M w₁ n₁ / 2 : Nat) : Int) ∧ S w₁ b₁ = -1
+    · have hov' : S w₂ a₂ = -((M w₂ n₂ / 2 : Nat) : Int) ∧ S w₂ b₂ = -1 := by
+        rw [← ha.val, ← hb.val, ← hMh]; exact hov
+      obtain ⟨p1, p2, p3⟩ := C18.i_min_neg_one c.one₁ c.hn₁ ha.wf₁ hb.wf₁ hov dbg
+      obtain ⟨q1, q2, q3⟩ := C18.i_min_neg_one c.one₂ c.hn₂ ha.wf₂ hb.wf₂ hov' dbg
+      rw [p1, p2, p3, q1, q2, q3]
+      exact ⟨trivial, trivial, trivial, fun h => absurd hov h⟩
+    · have hov' : ¬ (S w₂ a₂ = -((M w₂ n₂ / 2 : Nat) : Int) ∧ S w₂ b₂ = -1) := by
+        rw [← ha.val, ← hb.val, ← hMh]; exact hov
+      obtain ⟨x1, e1, -, u1⟩ := C18.i_divFloor_spec c.hw₁ c.hn₁ ha.wf₁ hb.wf₁ h0 hov dbg
+      obtain ⟨x2, e2, -, u2⟩ := C18.i_divFloor_spec c.hw₂ c.hn₂ ha.wf₂ hb.wf₂ h0' hov' dbg
+      obtain ⟨y1, f1, -, v1⟩ := C18.i_modFloor_spec c.hw₁ c.hn₁ ha.wf₁ hb.wf₁ h0 hov dbg
+      obtain ⟨y2, f2, -, v2⟩ := C18.i_modFloor_spec c.hw₂ c.hn₂ ha.wf₂ hb.wf₂ h0' hov' dbg
+      obtain ⟨q1, r1, g1, -, -, s1, t1⟩ := C18.i_divRem_spec c.hw₁ c.hn₁ ha.wf₁ hb.wf₁ h0 hov dbg
+      obtain ⟨q2, r2, g2, -, -, s2, t2⟩ := C18.i_divRem_spec c.hw₂ c.hn₂ ha.wf₂ hb.wf₂ h0' hov' dbg
+      obtain ⟨q3, r3, g3, -, -, s3, t3⟩ := C18.i_divModFloor_spec c.hw₁ c.hn₁ ha.wf₁ hb.wf₁ h0 hov dbg
+      obtain ⟨q4, r4, g4, -, -, s4, t4⟩ := C18.i_divModFloor_spec c.hw₂ c.hn₂ ha.wf₂ hb.wf₂ h0' hov' dbg
+      rw [e1, e2, f1, f2, g1, g2, g3, g4, C18.i_isMultipleOf_spec c.hw₁ c.hn₁ ha.wf₁ hb.wf₁ h0 hov dbg,
+        C18.i_isMultipleOf_spec c.hw₂ c.hn₂ ha.wf₂ hb.wf₂ h0' hov' dbg, ha.val, hb.val]
+      refine ⟨?_, ?_, ⟨?_, ?_⟩, fun _ => ⟨⟨?_, ?_⟩, rfl⟩⟩ <;> show S _ _ = S _ _
+      · rw [u1, u2, ha.val, hb.val]
+      · rw [v1, v2, ha.val, hb.val]
+      · rw [s1, s2, ha.val, hb.val]
+      · rw [t1, t2, ha.val, hb.val]
+      · rw [s3, s4, ha.val, hb.val]
+      · rw [t3, t4, ha.val, hb.val]
+example : NumT.I.divFloor true 8 [0xf9, 0xff] [0x02, 0x00] = .ok [0xfc, 0xff] ∧
+    NumT.I.divFloor true 16 [0xfff9] [0x0002] = .ok [0xfffc] := by decide
+
+open NumT in
+/-- C18 `Roots` of `BUint` (digit widths `2^s`): `sqrt`, `cbrt`, `nth_root(d)` for every degree
+    (`d = 0`: both panic) -/
+theorem indep_u_roots {s₁ s₂ : Nat} (h1₁ : 1 ≤ s₁) (hs₁ : s₁ < 32) (h1₂ : 1 ≤ s₂) (hs₂ : s₂ < 32)
+    (c : Cfgs (2 ^ s₁) n₁ (2 ^ s₂) n₂) (ha : SameU (2 ^ s₁) n₁ (2 ^ s₂) n₂ a₁ a₂) (dbg : Bool)
+    {d : Nat} (hd32 : d < 2 ^ 32) :
+    OutRel (EqU (2 ^ s₁) (2 ^ s₂)) (U.sqrt dbg (2 ^ s₁) a₁) (U.sqrt dbg (2 ^ s₂) a₂) ∧
+    OutRel (EqU (2 ^ s₁) (2 ^ s₂)) (U.cbrt dbg (2 ^ s₁) a₁) (U.cbrt dbg (2 ^ s₂) a₂) ∧
+    OutRel (EqU (2 ^ s₁) (2 ^ s₂)) (U.nthRoot dbg (2 ^ s₁) a₁ d) (U.nthRoot dbg (2 ^ s₂) a₂ d) := by
+  obtain ⟨r1, e1, -, i1⟩ := C18.u_sqrt_spec hs₁ c.hn₁ ha.wf₁ dbg
+  obtain ⟨r2, e2, -, i2⟩ := C18.u_sqrt_spec hs₂ c.hn₂ ha.wf₂ dbg
+  obtain ⟨r3, e3, -, i3⟩ := C18.u_cbrt_spec h1₁ hs₁ c.hn₁ ha.wf₁ dbg
+  obtain ⟨r4, e4, -, i4⟩ := C18.u_cbrt_spec h1₂ hs₂ c.hn₂ ha.wf₂ dbg
+  rw [ha.val] at i1 i3
+  refine ⟨by rw [e1, e2]; exact C18.root_unique i1 i2, by rw [e3, e4]; exact C18.root_unique i3 i4, ?_⟩
+  by_cases hd : d = 0
+  · subst hd; rw [C18.u_nthRoot_zero, C18.u_nthRoot_zero]; trivial
+  · obtain ⟨r5, e5, -, i5⟩ := C18.u_nthRoot_spec h1₁ hs₁ c.hn₁ ha.wf₁ dbg (by omega) hd32
+    obtain ⟨r6, e6, -, i6⟩ := C18.u_nthRoot_spec h1₂ hs₂ c.hn₂ ha.wf₂ dbg (by omega) hd32
+    rw [ha.val] at i5
+    rw [e5, e6]; exact C18.root_unique i5 i6
+set_option maxRecDepth 100000 in
+example : NumT.U.sqrt true (2 ^ 3) [0x00, 0x90] = .ok [0xc0, 0x00] ∧
+    NumT.U.sqrt true (2 ^ 4) [0x9000] = .ok [0x00c0] := by decide
+
+open NumT in
+/-- C18 `Roots` of `BInt`: the panics (negative radicand with an even degree, degree 0) and the values -/
+theorem indep_i_roots {s₁ s₂ : Nat} (h1₁ : 1 ≤ s₁) (hs₁ : s₁ < 32) (h1₂ : 1 ≤ s₂) (hs₂ : s₂ < 32)
+    (c : Cfgs (2 ^ s₁) n₁ (2 ^ s₂) n₂) (ha : SameS (2 ^ s₁) n₁ (2 ^ s₂) n₂ a₁ a₂) (dbg : Bool)
+    {d : Nat} (hd32 : d < 2 ^ 32) :
+    OutRel (EqS (2 ^ s₁) (2 ^ s₂)) (I.sqrt dbg (2 ^ s₁) a₁) (I.sqrt dbg (2 ^ s₂) a₂) ∧
+    OutRel (EqS (2 ^ s₁) (2 ^ s₂)) (I.cbrt dbg (2 ^ s₁) a₁) (I.cbrt dbg (2 ^ s₂) a₂) ∧
+    OutRel (EqS (2 ^ s₁) (2 ^ s₂)) (I.nthRoot dbg (2 ^ s₁) a₁ d) (I.nthRoot dbg (2 ^ s₂) a₂ d) := by
+  obtain ⟨n1, p1⟩ := C18.i_sqrt_spec h1₁ hs₁ c.hn₁ ha.wf₁ dbg
+  obtain ⟨n2, p2⟩ := C18.i_sqrt_spec h1₂ hs₂ c.hn₂ ha.wf₂ dbg
+  obtain ⟨r3, e3, -, i3⟩ := C18.i_cbrt_spec h1₁ hs₁ c.hn₁ ha.wf₁ dbg
+  obtain ⟨r4, e4, -, i4⟩ := C18.i_cbrt_spec h1₂ hs₂ c.hn₂ ha.wf₂ dbg
+  obtain ⟨z1, g1, k1⟩ := C18.i_nthRoot_spec h1₁ hs₁ c.hn₁ ha.wf₁ dbg hd32
+  obtain ⟨z2, g2, k2⟩ := C18.i_nthRoot_spec h1₂ hs₂ c.hn₂ ha.wf₂ dbg hd32
+  rw [ha.val] at n1 p1 i3 g1 k1
+  refine ⟨?_, by rw [e3, e4]; exact C18.rootZ_unique i3 i4, ?_⟩
+  · by_cases hneg : S (2 ^ s₂) a₂ < 0
+    · rw [n1 hneg, n2 hneg]; trivial
+    · obtain ⟨r1, e1, -, i1⟩ := p1 (by omega)
+      obtain ⟨r2, e2, -, i2⟩ := p2 (by omega)
+      rw [e1, e2]; exact C18.rootZ_unique i1 i2
+  · by_cases hd : d = 0
+    · rw [z1 hd, z2 hd]; trivial
+    · by_cases hneg : S (2 ^ s₂) a₂ < 0 ∧ d % 2 = 0
+      · rw [g1 hneg.1 hneg.2, g2 hneg.1 hneg.2]; trivial
+      · obtain ⟨r1, e1, -, i1⟩ := k1 (by omega) (by omega)
+        obtain ⟨r2, e2, -, i2⟩ := k2 (by omega) (by omega)
+        rw [e1, e2]; exact C18.rootZ_unique i1 i2
+set_option maxRecDepth 100000 in
+example : NumT.I.cbrt true (2 ^ 3) [0x18, 0xfc] = .ok [0xf6, 0xff] ∧
+    NumT.I.cbrt true (2 ^ 4) [0xfc18] = .ok [0xfff6] := by decide
+
+open NumT in
+/-- C18 `MulAdd::mul_add`, `Signed::abs_sub` (whenever the exact results are representable, as in C18),
+    `Integer::is_even` / `is_odd` -/
+theorem indep_mul_add_abs_sub_even {x₁ x₂ c₁ c₂ : List Nat} (c : Cfgs w₁ n₁ w₂ n₂) (dbg : Bool) :
+    (SameU w₁ n₁ w₂ n₂ x₁ x₂ → SameU w₁ n₁ w₂ n₂ a₁ a₂ → SameU w₁ n₁ w₂ n₂ c₁ c₂ →
+      U w₁ x₁ * U w₁ a₁ + U w₁ c₁ < M w₁ n₁ →
+      OutRel (EqU w₁ w₂) (U.mulAdd dbg w₁ x₁ a₁ c₁) (U.mulAdd dbg w₂ x₂ a₂ c₂)) ∧
+    (SameS w₁ n₁ w₂ n₂ x₁ x₂ → SameS w₁ n₁ w₂ n₂ a₁ a₂ → SameS w₁ n₁ w₂ n₂ c₁ c₂ →
+      repS (M w₁ n₁) (S w₁ x₁ * S w₁ a₁) → repS (M w₁ n₁) (S w₁ x₁ * S w₁ a₁ + S w₁ c₁) →
+      OutRel (EqS w₁ w₂) (I.mulAdd dbg w₁ x₁ a₁ c₁) (I.mulAdd dbg w₂ x₂ a₂ c₂)) ∧
+    (SameS w₁ n₁ w₂ n₂ a₁ a₂ → SameS w₁ n₁ w₂ n₂ b₁ b₂ → repS (M w₁ n₁) (S w₁ a₁ - S w₁ b₁) →
+      OutRel (EqS w₁ w₂) (I.absSub dbg w₁ a₁ b₁) (I.absSub dbg w₂ a₂ b₂)) ∧
+    (SameU w₁ n₁ w₂ n₂ a₁ a₂ → U.isEven a₁ = U.isEven a₂ ∧ U.isOdd a₁ = U.isOdd a₂) ∧
+    (SameS w₁ n₁ w₂ n₂ a₁ a₂ → I.isEven a₁ = I.isEven a₂ ∧ I.isOdd a₁ = I.isOdd a₂) := by
+  refine ⟨fun hx ha hc h => ?_, fun hx ha hc h1 h2 => ?_, fun ha hb h => ?_, fun ha => ?_, fun ha => ?_⟩
+  · exact okUn (C18.u_mulAdd_spec hx.wf₁ ha.wf₁ hc.wf₁ h dbg)
+      (C18.u_mulAdd_spec hx.wf₂ ha.wf₂ hc.wf₂ (by rw [← hx.val, ← ha.val, ← hc.val, ← c.M_eq]; exact h) dbg)
+      (by rw [hx.val, ha.val, hc.val])
+  · exact okS (C18.i_mulAdd_spec c.hw₁ c.hn₁ hx.wf₁ ha.wf₁ hc.wf₁ h1 h2 dbg)
+      (C18.i_mulAdd_spec c.hw₂ c.hn₂ hx.wf₂ ha.wf₂ hc.wf₂ (by rw [← hx.val, ← ha.val, ← c.M_eq]; exact h1)
+        (by rw [← hx.val, ← ha.val, ← hc.val, ← c.M_eq]; exact h2) dbg)
+      (by rw [hx.val, ha.val, hc.val])
+  · obtain ⟨l1, g1⟩ := C18.i_absSub_spec c.hw₁ c.hn₁ ha.wf₁ hb.wf₁ dbg
+    obtain ⟨l2, g2⟩ := C18.i_absSub_spec c.hw₂ c.hn₂ ha.wf₂ hb.wf₂ dbg
+    rw [ha.val, hb.val] at l1 g1
+    by_cases hle : S w₂ a₂ ≤ S w₂ b₂
+    · rw [l1 hle, l2 hle]; show S _ _ = S _ _; rw [S_zero, S_zero]
+    · exact okS (g1 (by omega) (by rw [← ha.val, ← hb.val]; exact h))
+        (g2 (by omega) (by rw [← ha.val, ← hb.val, ← c.M_eq]; exact h)) rfl
+  · obtain ⟨p1, p2⟩ := C18.u_isEven_spec c.one₁ c.hn₁ ha.wf₁
+    obtain ⟨q1, q2⟩ := C18.u_isEven_spec c.one₂ c.hn₂ ha.wf₂
+    rw [p1, p2, q1, q2, ha.val]; exact ⟨rfl, rfl⟩
+  · obtain ⟨p1, p2⟩ := C18.i_isEven_spec c.hw₁ c.hn₁ ha.wf₁
+    obtain ⟨q1, q2⟩ := C18.i_isEven_spec c.hw₂ c.hn₂ ha.wf₂
+    rw [p1, p2, q1, q2, ha.val]; exact ⟨rfl, rfl⟩
+example : NumT.U.mulAdd true 8 [0x10, 0x00] [0x10, 0x00] [0x05, 0x00] = .ok [0x05, 0x01] ∧
+    NumT.U.mulAdd true 16 [0x0010] [0x0010] [0x0005] = .ok [0x0105] := by decide
+
+/-! ### C03, completed: `next_multiple_of` (the function C03 only describes when its result is representable)
+    and the rounding divisions at `MIN / -1` — ALL operands, both build profiles -/
+
+/-- `BUint::next_multiple_of` for every operand pair and both profiles: zero divisor (both panic), the multiple
+    not representable (`debug_assertions`: both panic; release: both wrap to the same value), else the multiple -/
+theorem indep_u_next_multiple_of (c : Cfgs w₁ n₁ w₂ n₂) (ha : SameU w₁ n₁ w₂ n₂ a₁ a₂)
+    (hb : SameU w₁ n₁ w₂ n₂ b₁ b₂) (dbg : Bool) :
+    OutRel (EqU w₁ w₂) (UI.nextMultipleOf dbg w₁ a₁ b₁) (UI.nextMultipleOf dbg w₂ a₂ b₂) :=
+  u_nextMultipleOf_rel c ha hb dbg
+example : UI.nextMultipleOf true 8 [0xff, 0xff] [0x07, 0x00] = .panic ∧ UI.nextMultipleOf true 16 [0xffff] [0x0007] = .panic ∧
+    UI.nextMultipleOf false 8 [0xff, 0xff] [0x07, 0x00] = .ok [0x05, 0x00] ∧
+    UI.nextMultipleOf false 16 [0xffff] [0x0007] = .ok [0x0005] := by decide
+
+/-- `BInt`: `div_floor`, `div_ceil`, `checked_next_multiple_of`, `next_multiple_of` for ALL operands — zero
+    divisor, `MIN / -1` (`div_floor` = `div_ceil` = the wrapped quotient `MIN` in both; no panic in either
+    profile), unrepresentable multiple (profile dependent, but the same in both digit types) included.
+    Removes the exclusion of `indep_i_div_round`. -/
+theorem indep_i_div_round_all (c : Cfgs w₁ n₁ w₂ n₂) (ha : SameS w₁ n₁ w₂ n₂ a₁ a₂)
+    (hb : SameS w₁ n₁ w₂ n₂ b₁ b₂) (dbg : Bool) :
+    OutRel (EqS w₁ w₂) (II.divFloor dbg w₁ a₁ b₁) (II.divFloor dbg w₂ a₂ b₂) ∧
+    OutRel (EqS w₁ w₂) (II.divCeil dbg w₁ a₁ b₁) (II.divCeil dbg w₂ a₂ b₂) ∧
+    OutRel (OptRel (EqS w₁ w₂)) (II.checkedNextMultipleOf dbg w₁ a₁ b₁)
+      (II.checkedNextMultipleOf dbg w₂ a₂ b₂) ∧
+    OutRel (EqS w₁ w₂) (II.nextMultipleOf dbg w₁ a₁ b₁) (II.nextMultipleOf dbg w₂ a₂ b₂) := by
+  have nmo := i_nextMultipleOf_rel c ha hb dbg
+  by_cases hov : S w₁ a₁ = -(H w₁ n₁ : Int) ∧ S w₁ b₁ = -1
+  · have hov₁ : S w₁ a₁ = -((M w₁ n₁ / 2 : Nat) : Int) ∧ S w₁ b₁ = -1 := by
+      rw [M_half_eq_H c.one₁ c.hn₁]; exact hov
+    have hov₂ : S w₂ a₂ = -((M w₂ n₂ / 2 : Nat) : Int) ∧ S w₂ b₂ = -1 := by
+      rw [← ha.val, ← hb.val, ← c.M_eq]; exact hov₁
+    obtain ⟨q₁, f₁, g₁, -, s₁⟩ := i_divFloorCeil_min_neg_one c.hw₁ c.hn₁ ha.wf₁ hb.wf₁ hov₁ dbg
+    obtain ⟨q₂, f₂, g₂, -, s₂⟩ := i_divFloorCeil_min_neg_one c.hw₂ c.hn₂ ha.wf₂ hb.wf₂ hov₂ dbg
+    have e : EqS w₁ w₂ q₁ q₂ := EqS.of_int s₁ s₂ (by rw [c.M_eq])
+    have h0 : S w₁ b₁ ≠ 0 := by rw [hov.2]; decide
+    have h0' : S w₂ b₂ ≠ 0 := by rw [hov₂.2]; decide
+    obtain ⟨o₁, e₁, t₁⟩ := C03.i_checkedNextMultipleOf_spec c.hw₁ c.hn₁ ha.wf₁ hb.wf₁ h0 dbg
+    obtain ⟨o₂, e₂, t₂⟩ := C03.i_checkedNextMultipleOf_spec c.hw₂ c.hn₂ ha.wf₂ hb.wf₂ h0' dbg
+    have nm : OptRel (EqS w₁ w₂) o₁ o₂ :=
+      optS t₁ t₂ (by rw [c.M_eq, ha.val, hb.val]) (by rw [ha.val, hb.val])
+    rw [f₁, f₂, g₁, g₂, e₁, e₂]
+    exact ⟨e, e, nm, nmo⟩
+  · obtain ⟨d1, d2, d3⟩ := indep_i_div_round c ha hb dbg hov
+    exact ⟨d1, d2, d3, nmo⟩
+example : II.divFloor true 8 [0x00, 0x80] [0xff, 0xff] = .ok [0x00, 0x80] ∧
+    II.divFloor true 16 [0x8000] [0xffff] = .ok [0x8000] ∧
+    II.nextMultipleOf true 8 [0x7f, 0x7f] [0x00, 0x01] = .panic ∧ II.nextMultipleOf true 16 [0x7f7f] [0x0100] = .panic ∧
+    II.nextMultipleOf false 8 [0x7f, 0x7f] [0x00, 0x01] = .ok [0x00, 0x80] ∧
+    II.nextMultipleOf false 16 [0x7f7f] [0x0100] = .ok [0x8000] := by decide
+
+/-- (ii) signed `rem` / `rem_euclid` commute with sign-extension for ALL operands, `MIN % -1` of the narrow type
+    included: the exact remainder `0` IS representable there, and the forms that return a value
+    (`wrapping_rem(_euclid)`, the value of `overflowing_rem(_euclid)`) agree — only the `checked` /
+    panicking forms (and the overflow flag) report the unrepresentable QUOTIENT, which `ext_i_div` excludes. -/
+theorem ext_i_wrapping_rem (x : Ext w₁ n₁ w₂ n₂) (ha : SameS w₁ n₁ w₂ n₂ a₁ a₂)
+    (hb : SameS w₁ n₁ w₂ n₂ b₁ b₂) (dbg : Bool) :
+    OutRel (EqS w₁ w₂) (II.wrappingRem dbg w₁ a₁ b₁) (II.wrappingRem dbg w₂ a₂ b₂) ∧
+    OutRel (EqS w₁ w₂) (II.wrappingRemEuclid dbg w₁ a₁ b₁) (II.wrappingRemEuclid dbg w₂ a₂ b₂) ∧
+    OutRel (fun p q => EqS w₁ w₂ p.1 q.1) (II.overflowingRem dbg w₁ a₁ b₁) (II.overflowingRem dbg w₂ a₂ b₂) ∧
+    OutRel (fun p q => EqS w₁ w₂ p.1 q.1) (II.overflowingRemEuclid dbg w₁ a₁ b₁)
+      (II.overflowingRemEuclid dbg w₂ a₂ b₂) := by
+  by_cases h0 : S w₁ b₁ = 0
+  · have h0' : S w₂ b₂ = 0 := by rw [← hb.val]; exact h0
+    have z₁ := C03.i_zero_divisor x.hw₁ x.hn₁ ha.wf₁ hb.wf₁ h0 dbg
+    have z₂ := C03.i_zero_divisor x.hw₂ x.hn₂ ha.wf₂ hb.wf₂ h0' dbg
+    simp only [z₁, z₂, OutRel, and_self]
+  · have h0' : S w₂ b₂ ≠ 0 := by rw [← hb.val]; exact h0
+    obtain ⟨r₁, re₁, f₁, g₁, p1, p2, p3, p4, -, -, sr₁, sre₁⟩ := i_rem_total x.hw₁ x.hn₁ ha.wf₁ hb.wf₁ h0 dbg
+    obtain ⟨r₂, re₂, f₂, g₂, q1, q2, q3, q4, -, -, sr₂, sre₂⟩ := i_rem_total x.hw₂ x.hn₂ ha.wf₂ hb.wf₂ h0' dbg
+    have er : EqS w₁ w₂ r₁ r₂ := EqS.of_int sr₁ sr₂ (by rw [ha.val, hb.val])
+    have ere : EqS w₁ w₂ re₁ re₂ := EqS.of_int sre₁ sre₂ (by rw [ha.val, hb.val])
+    rw [p1, p2, p3, p4, q1, q2, q3, q4]
+    exact ⟨er, ere, er, ere⟩
+/-- `i8::MIN % -1`: the narrow `wrapping_rem` is 0 (the `checked` form says `None`), and so is the wide one -/
+example : II.wrappingRem true 8 [0x80] [0xff] = .ok [0x00] ∧ II.checkedRem true 8 [0x80] [0xff] = .ok none ∧
+    II.wrappingRem true 16 [0xff80] [0xffff] = .ok [0x0000] := by decide
+
+end more
+
+/-! ## §5, continued: the transcription `Consts.aliases` IS the table of `src/types.rs`
+
+  `Generated.aliases` is rewritten from `/repo/src/types.rs` by the pre hook of every run (name, signedness and the
+  `$bits` literal of each row; the hook also checks that the macro body still instantiates
+  `BUint::<{$bits / 64}>` / `BInt::<{$bits / 64}>`).  The model's table — which the driver's `alias` request and
+  the theorems `aliases_*` above are about — stores the digit count as a literal; this theorem ties it to
+  `$bits / 64` of the generated rows, so a changed row of `types.rs` breaks the build of this module. -/
+theorem aliases_generated :
+    Consts.aliases = Generated.aliases.map (fun e => (e.1, e.2.1, e.2.2 / 64, e.2.2)) := by decide
+example : ("U1024", false, 1024) ∈ Generated.aliases ∧ ("U1024", false, 16, 1024) ∈ Consts.aliases := by decide
 
 end Bnum.C16
